@@ -183,8 +183,8 @@ PROPS = {
 
     "C05": {
         "level": "proof",
-        "lean_modules": ["SqlizeModel.Props.C05", "SqlizeModel.Props.TieParser", "SqlizeModel.Props.TieElement", "SqlizeModel.Props.TieApiLoad"],
-        "theorems": ["Sqlize.C05.split_invariant", "Sqlize.C05.calls_invariant", "Sqlize.C05.rejected_unchanged", "Sqlize.C05.parse_before_edit",
+        "lean_modules": ["SqlizeModel.Proofs.ScopeB", "SqlizeModel.Props.C05", "SqlizeModel.Props.TieParser", "SqlizeModel.Props.TieElement", "SqlizeModel.Props.TieApiLoad"],
+        "theorems": ["Sqlize.proved_dump", "Sqlize.C05.split_invariant", "Sqlize.C05.calls_invariant", "Sqlize.C05.rejected_unchanged", "Sqlize.C05.parse_before_edit",
                      "Sqlize.C05.load_keeps_inv", "Sqlize.C05.rename_onto_existing_breaks", "Sqlize.readScript_inv", "Sqlize.fromString_inv", "Sqlize.C05.names_and_positions", "Sqlize.C05.names_positions_types", "Sqlize.C05.names_positions_types_options", "Sqlize.ReaderMysql.step_rel", "Sqlize.ReaderMysql.fidelity",
                      "Sqlize.C05.indexes_and_foreign_keys", "Sqlize.ReaderMysql.step_elems", "Sqlize.Table.removeColumn_raw",
                      "Sqlize.C05.primary_key_table_level", "Sqlize.ReaderMysql.step_pk", "Sqlize.pkOf_strip",
@@ -325,8 +325,8 @@ PROPS = {
     },
     "C15": {
         "level": "proof",
-        "lean_modules": ["SqlizeModel.Props.C15", "SqlizeModel.Props.TieAvro", "SqlizeModel.Props.TieApiExport"],
-        "theorems": ["Sqlize.C15.export_of_the_reference_schema", "Sqlize.avro_of_schema", "Sqlize.cols_fields", "Sqlize.field_of_spec", "Sqlize.C15.other_dialects_nothing", "Sqlize.C15.one_document_per_table", "Sqlize.C15.one_field_per_column", "Sqlize.C15.nullable_iff_default", "Sqlize.Tie.avro_skeleton_as_modelled", "Sqlize.Tie.api_export_skeleton_as_modelled"],
+        "lean_modules": ["SqlizeModel.Proofs.ScopeB", "SqlizeModel.Props.C15", "SqlizeModel.Props.TieAvro", "SqlizeModel.Props.TieApiExport"],
+        "theorems": ["Sqlize.proved_avro", "Sqlize.C15.export_of_the_reference_schema", "Sqlize.avro_of_schema", "Sqlize.cols_fields", "Sqlize.field_of_spec", "Sqlize.C15.other_dialects_nothing", "Sqlize.C15.one_document_per_table", "Sqlize.C15.one_field_per_column", "Sqlize.C15.nullable_iff_default", "Sqlize.Tie.avro_skeleton_as_modelled", "Sqlize.Tie.api_export_skeleton_as_modelled"],
         "suites": [{"name": "export"}],
         "corr_points": ["ArvoSchema"],
         "rule": EXPORT_RULE,
